@@ -77,6 +77,26 @@ def identityOfOp : ClientOp Root Chain → Option (IdentityPem Chain)
 def configuredIdentity (ops : List (ClientOp Root Chain)) : Option (IdentityPem Chain) :=
   (ops.filterMap identityOfOp).getLast?
 
+/-! ### several configurations in one program: each one is what ITS OWN calls said -/
+
+/-- The builder-call sequences of the configuration variables of a program, read off its text:
+`ClientTlsConfig::new().<ops>` was told `ops`; `cK.clone().<ops>` was told what `cK` was told,
+then `ops`.  Statements that USE a configuration (or do anything else) tell it nothing. -/
+def cfgTableStep (tbl : List (List (ClientOp Root Chain))) : Stmt Root Chain → List (List (ClientOp Root Chain))
+  | .config none ops => tbl ++ [ops]
+  | .config (some k) ops =>
+    match tbl[k]? with
+    | some l => tbl ++ [l ++ ops]
+    | none => tbl
+  | _ => tbl
+
+def cfgTable (prog : List (Stmt Root Chain)) : List (List (ClientOp Root Chain)) :=
+  prog.foldl cfgTableStep []
+
+/-- "its own builder sequence": everything configuration variable `c` of the program was told. -/
+def ownOps (prog : List (Stmt Root Chain)) (c : Nat) : Option (List (ClientOp Root Chain)) :=
+  (cfgTable prog)[c]?
+
 /-- Same set of roots. -/
 def SameRoots (a b : List Root) : Prop := ∀ r, r ∈ a ↔ r ∈ b
 
